@@ -5646,6 +5646,24 @@ int64_t ExpressionEvaluator::evaluate_function_call_impl(const ASTNode *node) {
                                     param_var->is_pointer = true;
                                 }
                             }
+
+                            // パラメータ自身の宣言 (const T* / T* const) の
+                            // const修飾を反映（引数が &x などポインタ変数で
+                            // ない場合や、T* を const T* に渡した場合も含む）
+                            if (param->is_pointer &&
+                                (param->is_pointee_const_qualifier ||
+                                 param->is_pointer_const_qualifier)) {
+                                Variable *param_var =
+                                    interpreter_.find_variable(param->name);
+                                if (param_var) {
+                                    if (param->is_pointee_const_qualifier) {
+                                        param_var->is_pointee_const = true;
+                                    }
+                                    if (param->is_pointer_const_qualifier) {
+                                        param_var->is_pointer_const = true;
+                                    }
+                                }
+                            }
                         }
                     }
                 }
